@@ -13,6 +13,8 @@ var c13D = [...]string{"0", "1", "2", "3", "4", "5", "6", "7"}
 type c13Labels struct {
 	name, ver [5]string
 	errs      [5]string
+	errn1     [5]string
+	errn2     [5]string
 	nerr      [5]int
 	ereq      [6]string
 	edev      [6]bool
@@ -31,6 +33,10 @@ func c13MakeLabels(n, e int) *c13Labels {
 		l.ver[i] = c13Two("ver" + c13D[i])
 		l.nerr[i] = (vParam("errs") >> uint(i)) & 1
 		l.errs[i] = c13Two("err" + c13D[i])
+		if l.nerr[i] == 1 && vParam("err2") == 1 {
+			l.errn1[i] = c13Two("errn1" + c13D[i])
+			l.errn2[i] = c13Two("errn2" + c13D[i])
+		}
 	}
 	for j := 0; j < e; j++ {
 		l.ereq[j] = c13Two("req" + c13D[j])
@@ -41,7 +47,7 @@ func c13MakeLabels(n, e int) *c13Labels {
 
 // c13Build builds the graph with node i placed at position pos[i] and the
 // edges added in the order given by eorder.
-func c13Build(n, e int, l *c13Labels, pos []int, eorder []int) *Graph {
+func c13Build(n, e int, l *c13Labels, pos []int, eorder []int, errRev bool) *Graph {
 	g := &Graph{}
 	inv := make([]int, n)
 	for i := 0; i < n; i++ {
@@ -51,9 +57,20 @@ func c13Build(n, e int, l *c13Labels, pos []int, eorder []int) *Graph {
 		i := inv[p]
 		id := g.AddNode(VersionKey{PackageKey: PackageKey{System: NPM, Name: l.name[i]}, VersionType: Concrete, Version: l.ver[i]})
 		if l.nerr[i] == 1 {
-			g.AddError(id, VersionKey{PackageKey: PackageKey{System: NPM, Name: "x"}, VersionType: Requirement, Version: "1"}, l.errs[i])
+			// one error, or two errors (on requirements named by symbolic letters) recorded in either order
+			x := VersionKey{PackageKey: PackageKey{System: NPM, Name: "x"}, VersionType: Requirement, Version: "1"}
 			if vParam("err2") == 1 {
-				g.AddError(id, VersionKey{PackageKey: PackageKey{System: NPM, Name: "y"}, VersionType: Requirement, Version: "1"}, "e")
+				x.Name = l.errn1[i]
+				y := VersionKey{PackageKey: PackageKey{System: NPM, Name: l.errn2[i]}, VersionType: Requirement, Version: "1"}
+				if errRev {
+					g.AddError(id, y, "e")
+					g.AddError(id, x, l.errs[i])
+				} else {
+					g.AddError(id, x, l.errs[i])
+					g.AddError(id, y, "e")
+				}
+			} else {
+				g.AddError(id, x, l.errs[i])
 			}
 		}
 	}
@@ -80,6 +97,23 @@ func c13SameGraph(a, b *Graph) bool {
 		ea, eb := a.Edges[i], b.Edges[i]
 		same = vAnd(same, vAnd(ea.From == eb.From, ea.To == eb.To))
 		same = vAnd(same, vAnd(ea.Requirement == eb.Requirement, ea.Type.Compare(eb.Type) == 0))
+	}
+	return same
+}
+
+// c13SameNode: the same version with the same errors, whatever order the (at most two) errors are recorded in.
+func c13SameNode(a, b Node) bool {
+	if len(a.Errors) != len(b.Errors) {
+		return false
+	}
+	same := a.Version == b.Version
+	switch len(a.Errors) {
+	case 1:
+		same = vAnd(same, a.Errors[0].Compare(b.Errors[0]) == 0)
+	case 2:
+		straight := vAnd(a.Errors[0].Compare(b.Errors[0]) == 0, a.Errors[1].Compare(b.Errors[1]) == 0)
+		crossed := vAnd(a.Errors[0].Compare(b.Errors[1]) == 0, a.Errors[1].Compare(b.Errors[0]) == 0)
+		same = vAnd(same, vOr(straight, crossed))
 	}
 	return same
 }
@@ -114,9 +148,9 @@ func VerifC13Canon() {
 		fwd[j] = j
 		rev[j] = (j + vParam("rot")) % e
 	}
-	g1 := c13Build(n, e, l, ident, fwd)
-	g2 := c13Build(n, e, l, c13Perm(n, vParam("perm")), rev)
-	orig := c13Build(n, e, l, ident, fwd)
+	g1 := c13Build(n, e, l, ident, fwd, false)
+	g2 := c13Build(n, e, l, c13Perm(n, vParam("perm")), rev, true)
+	orig := c13Build(n, e, l, ident, fwd, false)
 	err1 := g1.Canon()
 	err2 := g2.Canon()
 	vObserveBool("ok1", err1 == nil)
@@ -128,12 +162,23 @@ func VerifC13Canon() {
 	vCover(true, "canonicalised")
 	vAssert(c13SameGraph(g1, g2), "isomorphic graphs canonicalise to identical graphs")
 	vAssert(len(g1.Nodes) == n && len(g1.Edges) == e, "node and edge counts preserved")
-	vAssert(g1.Nodes[0].Compare(orig.Nodes[0]) == 0, "root preserved")
+	vAssert(c13SameNode(g1.Nodes[0], orig.Nodes[0]), "root preserved")
+	// the multiset of nodes with their errors is preserved
+	for _, cn := range g1.Nodes {
+		c1, c2 := 0, 0
+		for _, x := range g1.Nodes {
+			c1 += vIteInt(c13SameNode(cn, x), 1, 0)
+		}
+		for _, x := range orig.Nodes {
+			c2 += vIteInt(c13SameNode(cn, x), 1, 0)
+		}
+		vAssert(c1 == c2, "the multiset of nodes with their errors is preserved")
+	}
 	// every canonical edge is an original edge (by endpoint versions, requirement and type)
 	for _, ce := range g1.Edges {
 		found := false
 		for _, oe := range orig.Edges {
-			m := vAnd(g1.Nodes[ce.From].Compare(orig.Nodes[oe.From]) == 0, g1.Nodes[ce.To].Compare(orig.Nodes[oe.To]) == 0)
+			m := vAnd(c13SameNode(g1.Nodes[ce.From], orig.Nodes[oe.From]), c13SameNode(g1.Nodes[ce.To], orig.Nodes[oe.To]))
 			m = vAnd(m, vAnd(ce.Requirement == oe.Requirement, ce.Type.Compare(oe.Type) == 0))
 			found = vOr(found, m)
 		}
